@@ -63,9 +63,10 @@ def storms(rep, binary, comp, trace_module, quick):
     import concurrent.futures as cf
     rounds = 3000 if quick else 30000
     # k <= 3: the 2k operations of a round are all concurrent, and TLC searches their linearization orders
-    plans = [("consume", 2, 4), ("consume", 3, 2), ("consume", 3, 8), ("produce", 2, 4), ("produce", 3, 2)]
+    plans = [("consume", 2, 4), ("consume", 3, 2), ("consume", 3, 8), ("produce", 2, 4), ("produce", 3, 2),
+             ("closewake", 3, 4), ("closefull", 3, 4)]
     hists, total = [], 0
-    with cf.ThreadPoolExecutor(max_workers=5) as ex:
+    with cf.ThreadPoolExecutor(max_workers=7) as ex:
         futs = [ex.submit(harness.run, binary, ["storm", str(rounds), str(k), str(p), sc, comp], None, 900) for (sc, k, p) in plans]
         for (sc, k, p), f in zip(plans, futs):
             rc, outs, err = f.result()
